@@ -211,7 +211,7 @@ pub fn run(r: &mut Runner) -> &'static str {
         .into();
     r.assumptions.push("conditioned on the parser accepting the candidate (C02 owns acceptance); rejected candidates are counted as discarded".into());
     let n = r.n(150_000, 3_000_000);
-    r.random("c14.random", n, 200, &gen_case, &judge);
+    r.random("c14.random", n, 200, &gen_case, &|x: &Vec<u8>, st: &mut Stats| crate::engine::in_arena(x, |v| judge(v, st)));
     let (seed, quick) = (r.seed, r.quick());
     let work = |shard: usize, n: usize, st: &mut Stats, _stop: &std::sync::atomic::AtomicBool| -> Option<(Vec<u8>, Fail)> {
         let mut out = None;
